@@ -282,13 +282,22 @@ def run_others(case, res):
 # (name, alias, schema, kind)
 TKEYS = {"A": ("a", None, None, "T"), "B": ("b", None, None, "T"), "C": ("c", None, None, "T"), "A2": ("a", "a2", None, "T"),
          "Acopy": ("a", None, None, "T"), "A_s1": ("a", None, "s1", "T"), "A_s2": ("a", None, "s2", "T"),
-         "X_as_a": ("x", "a", None, "T"), "AQ_a": ("a", "a", None, "AQ")}
+         "X_as_a": ("x", "a", None, "T"), "AQ_a": ("a", "a", None, "AQ"),
+         # no table at all / an un-aliased subquery / an aliased subquery / an aliased set operation as the field's source
+         "NONE": (None, None, None, "N"), "SQ": ("<sq>", None, None, "Q"), "SQ_a": ("<sq>", "a", None, "Q"), "SO_b": ("<so>", "b", None, "S")}
 
 
 def mk_t(key):
     name, alias, schema, kind = TKEYS[key]
     if kind == "AQ":
         return AliasedQuery(name)
+    if kind == "N":
+        return None
+    if kind == "Q":
+        q = Query.from_(Table("inner1")).select("x", "y")
+        return q.as_(alias) if alias else q
+    if kind == "S":
+        return Query.from_(Table("inner1")).select("x").union(Query.from_(Table("inner2")).select("x")).as_(alias)
     return Table(name, alias=alias, schema=schema)
 
 
@@ -297,8 +306,14 @@ def tkey(key):
 
 
 def ident(t):
+    if t is None:
+        return (None, None, None, "N")
     if isinstance(t, AliasedQuery):
         return (t.name, t.alias, None, "AQ")
+    if type(t).__name__.endswith("QueryBuilder"):
+        return ("<sq>", t.alias, None, "Q")
+    if type(t).__name__ == "_SetOperation":
+        return ("<so>", t.alias, None, "S")
     sch = t._schema._name if getattr(t, "_schema", None) is not None else None
     return (t._table_name, t.alias, sch, "T")
 
@@ -346,7 +361,7 @@ def run_exprs(case, res):
                 term = build(fields)
                 res.transitions += 1
                 exp_f = {(tkey(combo[i]), colc[i]) for i in range(n)}
-                exp_t = {tkey(combo[i]) for i in range(n)}
+                exp_t = {tkey(combo[i]) for i in range(n) if TKEYS[combo[i]][3] in ("T", "AQ")}  # (tables_ is about tables)
                 try:
                     got_f = {(ident(f.table), f.name) for f in term.fields_()}
                     got_t = {ident(t) for t in term.tables_ if not isinstance(t, AliasedQuery)} | {
